@@ -118,11 +118,12 @@ fn decoder_running(stream: &[u8], plain: &[u8], mode: Mode, blen: usize, chunk: 
 }
 
 /// mz_stream.adler after every mz_deflate / mz_inflate call of a schedule.
-fn stream_adler(input: &[u8], level: i32, chunk: usize, room: usize) -> Result<u64, String> {
+fn stream_adler(input: &[u8], level: i32, chunk: usize, room: usize, wbits: i32, strategy: i32, mid_flush: i32) -> Result<u64, String> {
     unsafe {
         let mut n = 0;
         let mut zs = capi::new_stream();
-        if miniz_oxide_c_api::mz_deflateInit(&mut zs, level) != 0 {
+        let rc = if wbits == 15 && strategy == 0 { miniz_oxide_c_api::mz_deflateInit(&mut zs, level) } else { miniz_oxide_c_api::mz_deflateInit2(&mut zs, level, 8, wbits, 9, strategy) };
+        if rc != 0 {
             return Err("mz_deflateInit failed".into());
         }
         let mut ip = 0;
@@ -130,7 +131,9 @@ fn stream_adler(input: &[u8], level: i32, chunk: usize, room: usize) -> Result<u
         let mut guard = 0;
         loop {
             let k = chunk.min(input.len() - ip);
-            let flush = if ip + k == input.len() { 4 } else { 0 };
+            // the field is defined for every kind of deflate stream (zlib or raw, any strategy) and at
+            // every call boundary, whatever flush the call carried
+            let flush = if ip + k == input.len() { 4 } else { mid_flush };
             let o = capi::stream_call(&mut zs, false, input, ip, k, room, flush, Place::End)?;
             ip += o.consumed;
             comp.extend_from_slice(&o.out);
@@ -155,8 +158,8 @@ fn stream_adler(input: &[u8], level: i32, chunk: usize, room: usize) -> Result<u
         miniz_oxide_c_api::mz_deflateEnd(&mut zs);
         // inflate side
         let mut zi = capi::new_stream();
-        if miniz_oxide_c_api::mz_inflateInit(&mut zi) != 0 {
-            return Err("mz_inflateInit failed".into());
+        if miniz_oxide_c_api::mz_inflateInit2(&mut zi, wbits) != 0 {
+            return Err("mz_inflateInit2 failed".into());
         }
         let mut ip = 0;
         let mut out: Vec<u8> = vec![];
@@ -167,7 +170,8 @@ fn stream_adler(input: &[u8], level: i32, chunk: usize, room: usize) -> Result<u
             ip += o.consumed;
             out.extend_from_slice(&o.out);
             n += 1;
-            if o.ret >= 0 && !out.is_empty() {
+            if wbits > 0 && o.ret >= 0 && !out.is_empty() {
+                // (zlib streams only: the property speaks of a zlib decoder)
                 // "output produced so far" = bytes the decoder has decoded: what was handed to the
                 // caller plus at most one window (32 KiB) still pending inside the wrapper. The
                 // plaintext is known, so the field must equal the Adler-32 of some prefix of it that
@@ -322,16 +326,21 @@ pub fn run(tier: &str) -> i32 {
                     if ins[i].data.len() > 5000 && chunk == 1 {
                         continue;
                     }
-                    items.push((i, level, chunk, room));
+                    for (wbits, strategy, mid_flush) in [(15, 0, 0), (-15, 0, 0), (15, 0, 2), (-15, 4, 3), (15, 3, 1), (-15, 2, 2), (15, 1, 0)] {
+                        if !th && (wbits, strategy, mid_flush) != (15, 0, 0) && (i + level as usize + (chunk & 1) + strategy as usize) % 2 != 0 {
+                            continue;
+                        }
+                        items.push((i, level, chunk, room, wbits, strategy, mid_flush));
+                    }
                 }
             }
         }
         let r4 = par_for(items.len(), || 0u64, |ix, acc| {
             watchdog::tick(ix as u64, 4);
-            let (i, level, chunk, room) = items[ix];
-            match guarded(|| stream_adler(&ins[i].data, level, chunk, room)) {
+            let (i, level, chunk, room, wbits, strategy, mid_flush) = items[ix];
+            match guarded(|| stream_adler(&ins[i].data, level, chunk, room, wbits, strategy, mid_flush)) {
                 Ok(Ok(n)) => *acc += n,
-                Ok(Err(e)) => rep.violation("C16/stream-adler", format!("{} :: level {} chunk {} room {} on {}", e, level, chunk as isize, room, ins[i].name), json!({"kind": "stream", "input": ins[i].name, "level": level, "chunk": chunk.min(1 << 40), "room": room})),
+                Ok(Err(e)) => rep.violation(if wbits > 0 { "C16/stream-adler" } else { "C16/stream-adler/raw" }, format!("{} :: level {} window_bits {} strategy {} mid-stream flush {} chunk {} room {} on {}", e, level, wbits, strategy, mid_flush, chunk as isize, room, ins[i].name), json!({"kind": "stream", "input": ins[i].name, "level": level, "chunk": chunk.min(1 << 40), "room": room, "wbits": wbits, "strategy": strategy, "mid_flush": mid_flush})),
                 Err(p) => rep.violation("C16/panic", format!("panic {}", p), json!({"kind": "stream", "input": ins[i].name})),
             }
         });
@@ -397,7 +406,7 @@ pub fn replay(v: &Value) -> Option<String> {
             ins.push(corpus::Input { name: "empty".into(), data: vec![] });
             let inp = ins.into_iter().find(|i| i.name == name)?;
             let f = |x: u64| if x >= 1 << 40 { usize::MAX } else { x as usize };
-            stream_adler(&inp.data, v["level"].as_i64()? as i32, f(v["chunk"].as_u64()?), v["room"].as_u64()? as usize).err()
+            stream_adler(&inp.data, v["level"].as_i64()? as i32, f(v["chunk"].as_u64()?), v["room"].as_u64()? as usize, v["wbits"].as_i64().unwrap_or(15) as i32, v["strategy"].as_i64().unwrap_or(0) as i32, v["mid_flush"].as_i64().unwrap_or(0) as i32).err()
         }
         _ => crate::props::c02::replay(v, "C16"),
     }
